@@ -3,5 +3,5 @@ package engines
 import "verif/sim/core"
 
 func All() []core.Engine {
-	return []core.Engine{C01{}, C02{}, C03{}, C05{}, C06{}, C08{}, C11{}, C12{}, C13{}, C19{}, C20{}}
+	return []core.Engine{C01{}, C02{}, C03{}, C05{}, C06{}, C08{}, C11{}, C12{}, C13{}, C15{}, C19{}, C20{}}
 }
